@@ -3,6 +3,8 @@ package props
 import (
 	"bytes"
 	"fmt"
+	"github.com/bufbuild/protocompile/linker"
+	"google.golang.org/protobuf/encoding/protowire"
 	"strings"
 	"testing"
 
@@ -160,9 +162,25 @@ func c22Check(c c22Case, r *ev.Rec) error {
 	all := allFiles(files)
 	types := extTypes(all)
 	maxDepthSeen, anyRemoved, anyKeptSibling := -1, false, false
+	type form struct {
+		f   linker.File
+		raw bool
+	}
+	var forms []form
 	for _, f := range files {
-		// as a consumer would hold it: decoded with the schema, extensions as known fields
+		forms = append(forms, form{f, false}, form{f, true})
+	}
+	for _, fm := range forms {
+		f := fm.f
+		// as a consumer would hold it: decoded with the schema, extensions as known fields ...
 		in := redecode(fdProto(f), types)
+		if fm.raw {
+			// ... or decoded without it (custom options are unrecognized fields then), by a consumer whose
+			// descriptor.proto is older than the producer's: every message also carries a field it does not know
+			in = redecode(fdProto(f), &protoregistry.Types{})
+			c22AddUnknown(in.ProtoReflect())
+			r.Label("form=unrecognized-fields")
+		}
 		before := detBytes(in)
 		got, err := options.StripSourceRetentionOptionsFromFile(in)
 		if err != nil {
@@ -210,13 +228,34 @@ func c22Check(c c22Case, r *ev.Rec) error {
 	return nil
 }
 
+// c22AddUnknown appends one unrecognized varint field (number 60000) to every message of the descriptor except
+// source code info.
+func c22AddUnknown(m protoreflect.Message) {
+	if m.Descriptor().FullName() == "google.protobuf.SourceCodeInfo" {
+		return
+	}
+	m.SetUnknown(protowire.AppendVarint(protowire.AppendTag(append([]byte{}, m.GetUnknown()...), 60000, protowire.VarintType), 7))
+	m.Range(func(fd protoreflect.FieldDescriptor, v protoreflect.Value) bool {
+		switch {
+		case fd.IsMap() || fd.Message() == nil:
+		case fd.IsList():
+			for i := 0; i < v.List().Len(); i++ {
+				c22AddUnknown(v.List().Get(i).Message())
+			}
+		default:
+			c22AddUnknown(v.Message())
+		}
+		return true
+	})
+}
+
 func formatWith(m proto.Message, types *protoregistry.Types) string {
 	return prototextFormatWith(m, types)
 }
 
 func TestC22_Strip(t *testing.T) {
 	ev.Run(t, ev.Spec[c22Case]{ID: "C22", Name: "Strip", Quick: 500, Thorough: 25000,
-		Rule: "compiled generated workspaces whose custom options (on all nine element kinds) have fields with SOURCE, RUNTIME or unset retention at nesting depth 0 (the option itself), 1 (field of the option message) and 2+ (inside nested, repeated, map-valued and extension message values), compiled with source info off / standard / extra option locations; the input is decoded with the schema as a consumer would hold it; oracle: a reference strip that walks every options message recursively and removes exactly the fields declared with source retention (dropping an options message that becomes empty) and the source-info locations under a removed path; additionally input bytes unchanged and strip(strip(x)) == strip(x); non-trivial = a field was removed at depth >= 1; distinct by case",
+		Rule: "compiled generated workspaces whose custom options (on all nine element kinds) have fields with SOURCE, RUNTIME or unset retention at nesting depth 0 (the option itself), 1 (field of the option message) and 2+ (inside nested, repeated, map-valued and extension message values), compiled with source info off / standard / extra option locations; the input is decoded with the schema as a consumer would hold it, and a second time without it (custom options are unrecognized fields) with one further unrecognized field added to every message; oracle: a reference strip that walks every options message recursively and removes exactly the fields declared with source retention (dropping an options message that becomes empty) and the source-info locations under a removed path; additionally input bytes unchanged and strip(strip(x)) == strip(x); non-trivial = a field was removed at depth >= 1; distinct by case",
 		Gen: func(t *rapid.T) c22Case {
 			ws := gen.GenWorkspace(t, gen.Config{CustomOpts: true, MaxFiles: 2, CustomOptPct: 50})
 			return c22Case{Files: ws.PrintAll(), Names: ws.Names(), SrcInfo: gen.Pick(t, []int{0, 1, 1, 5}, "srcinfo")}
@@ -289,6 +328,124 @@ extend google.protobuf.FieldOptions { optional Plain fplain = 50020; }
 				sb.WriteString("}\n")
 			}
 			return c22Case{Files: map[string]string{"x.proto": schema, "y.proto": sb.String()}, Names: []string{"y.proto"}, SrcInfo: gen.Pick(t, []int{0, 1, 5, 5, 7}, "srcinfo")}
+		},
+		Check: c22Check})
+}
+
+// TestC22_Delimited: source-retention fields inside group values (proto2) and inside DELIMITED message fields
+// (edition 2023) of option values.
+func TestC22_Delimited(t *testing.T) {
+	const schemaEd = `edition = "2023";
+package x;
+import "google/protobuf/descriptor.proto";
+message Box {
+  int32 keep = 1;
+  int32 src = 2 [retention = RETENTION_SOURCE];
+  Box child = 3;
+  Box dchild = 4 [features.message_encoding = DELIMITED];
+  repeated Box dkids = 5 [features.message_encoding = DELIMITED];
+  map<string, Box> mp = 6;
+  Box src_box = 7 [retention = RETENTION_SOURCE, features.message_encoding = DELIMITED];
+}
+extend google.protobuf.MessageOptions { Box box = 50030; repeated Box rbox = 50031; Box dbox = 50032 [features.message_encoding = DELIMITED]; }
+extend google.protobuf.FieldOptions { Box fbox = 50030; }
+`
+	const schemaP2 = `syntax = "proto2";
+package g;
+import "google/protobuf/descriptor.proto";
+message GBox {
+  optional int32 keep = 1;
+  optional int32 src = 2 [retention = RETENTION_SOURCE];
+  optional group Grp = 3 { optional int32 gkeep = 1; optional int32 gsrc = 2 [retention = RETENTION_SOURCE]; optional GBox inner = 3; }
+  repeated group RGrp = 4 { optional int32 rsrc = 1 [retention = RETENTION_SOURCE]; optional int32 rkeep = 2; }
+  optional GBox child = 5;
+}
+extend google.protobuf.MessageOptions { optional GBox gbox = 50040; repeated GBox rgbox = 50041; }
+extend google.protobuf.FieldOptions { optional GBox fgbox = 50040; }
+`
+	var box func(t *rapid.T, depth int) string
+	box = func(t *rapid.T, depth int) string {
+		var parts []string
+		if gen.Pct(t, 60, "keep") {
+			parts = append(parts, "keep: 1")
+		}
+		if gen.Pct(t, 55, "src") {
+			parts = append(parts, "src: 2")
+		}
+		if depth < 3 {
+			for _, f := range []string{"child", "dchild", "dkids", "dkids", "src_box"} {
+				if gen.Pct(t, 30, f) {
+					parts = append(parts, f+" { "+box(t, depth+1)+" }")
+				}
+			}
+			if gen.Pct(t, 25, "mp") {
+				parts = append(parts, fmt.Sprintf("mp { key: %q value { %s } }", gen.Pick(t, []string{"a", "b"}, "key"), box(t, depth+1)))
+			}
+		}
+		return strings.Join(parts, " ")
+	}
+	var gbox func(t *rapid.T, depth int) string
+	gbox = func(t *rapid.T, depth int) string {
+		var parts []string
+		if gen.Pct(t, 60, "keep") {
+			parts = append(parts, "keep: 1")
+		}
+		if gen.Pct(t, 50, "src") {
+			parts = append(parts, "src: 2")
+		}
+		if gen.Pct(t, 60, "grp") {
+			var g []string
+			if gen.Pct(t, 60, "gkeep") {
+				g = append(g, "gkeep: 3")
+			}
+			if gen.Pct(t, 70, "gsrc") {
+				g = append(g, "gsrc: 4")
+			}
+			if depth < 3 && gen.Pct(t, 40, "inner") {
+				g = append(g, "inner { "+gbox(t, depth+1)+" }")
+			}
+			parts = append(parts, "Grp { "+strings.Join(g, " ")+" }")
+		}
+		for k := gen.Pick(t, []int{0, 0, 1, 2}, "nrgrp"); k > 0; k-- {
+			parts = append(parts, "RGrp { "+gen.Pick(t, []string{"rsrc: 5", "rkeep: 6", "rsrc: 5 rkeep: 6", ""}, "rgrp")+" }")
+		}
+		if depth < 3 && gen.Pct(t, 30, "child") {
+			parts = append(parts, "child { "+gbox(t, depth+1)+" }")
+		}
+		return strings.Join(parts, " ")
+	}
+	ev.Run(t, ev.Spec[c22Case]{ID: "C22", Name: "Delimited", Quick: 300, Thorough: 15000,
+		Rule: "two fixed schemas: an edition-2023 option value type with length-prefixed, DELIMITED singular, DELIMITED repeated and map-valued message fields of its own type and a DELIMITED extension of MessageOptions, and a proto2 type with an optional and a repeated group; source-retention fields sit inside the DELIMITED values and inside the groups (and one DELIMITED field is itself source-retention); generated values nest to depth 3 on messages and fields; all source-info modes; same oracle as Strip; non-trivial = a field was removed at depth >= 1",
+		Gen: func(t *rapid.T) c22Case {
+			var sb strings.Builder
+			sb.WriteString("syntax = \"proto2\";\npackage y;\nimport \"x.proto\";\nimport \"g.proto\";\n")
+			n := 1 + gen.Uniform(t, 3, "nmsgs")
+			for i := 0; i < n; i++ {
+				fmt.Fprintf(&sb, "message M%d {\n", i)
+				if gen.Pct(t, 50, "box") {
+					fmt.Fprintf(&sb, "  option (x.box) = { %s };\n", box(t, 0))
+				}
+				if gen.Pct(t, 40, "dbox") {
+					fmt.Fprintf(&sb, "  option (x.dbox) = { %s };\n", box(t, 0))
+				}
+				for k := gen.Pick(t, []int{0, 0, 1, 2}, "nrbox"); k > 0; k-- {
+					fmt.Fprintf(&sb, "  option (x.rbox) = { %s };\n", box(t, 0))
+				}
+				if gen.Pct(t, 50, "gbox") {
+					fmt.Fprintf(&sb, "  option (g.gbox) = { %s };\n", gbox(t, 0))
+				}
+				for k := gen.Pick(t, []int{0, 0, 1}, "nrgbox"); k > 0; k-- {
+					fmt.Fprintf(&sb, "  option (g.rgbox) = { %s };\n", gbox(t, 0))
+				}
+				switch gen.Uniform(t, 3, "fieldopt") {
+				case 0:
+					fmt.Fprintf(&sb, "  optional int32 f = 1 [(x.fbox) = { %s }];\n", box(t, 0))
+				case 1:
+					fmt.Fprintf(&sb, "  optional int32 f = 1 [(g.fgbox) = { %s }];\n", gbox(t, 0))
+				}
+				sb.WriteString("}\n")
+			}
+			return c22Case{Files: map[string]string{"x.proto": schemaEd, "g.proto": schemaP2, "y.proto": sb.String()}, Names: []string{"y.proto"}, SrcInfo: gen.Pick(t, []int{0, 1, 5, 5, 7}, "srcinfo")}
 		},
 		Check: c22Check})
 }
